@@ -80,3 +80,38 @@ Print Assumptions C04_perform_hit_is_the_source.
 
 Theorem C04_nonvacuous : demo_statement.
 Proof. exact demo_hit. Qed.
+
+(* ------------------------------------------------------------------------------------------ *)
+(* "including stats altered by listeners before the hit": the hit listeners of content are MODIFIER
+   callbacks, reached through the modifier manager's dispatch (pkg/engine/modifier/listener.go).
+   Model/Dispatch.v models that dispatch as the code is; Model/DispatchSpec.v is the role table of the
+   doc comments of modifier.Listeners.  The definitions are spelled out in Proofs/DispatchProofs.v. *)
+From SR Require Model.Dispatch Model.DispatchSpec Proofs.DispatchProofs.
+
+(* attack / hit dispatch: OnBeforeAttack on the attacker's instances, then OnBeforeBeingAttacked on
+   those of every target in target order; per hit the attacker's instances then the defender's, on each
+   instance the All variant and then, for qualified attack types only, the plain variant; in snapshot
+   state only instances that may modify snapshots; death and break: victim first, then the causer,
+   told who the victim is; the flat damage read back is the fold of the callbacks' adjustments *)
+Theorem C04_hit_dispatch : DispatchProofs.hit_dispatch_statement.
+Proof. exact DispatchProofs.hit_dispatch_holds. Qed.
+Print Assumptions C04_hit_dispatch.
+
+Theorem C04_listener_role_table : DispatchProofs.role_table_statement.
+Proof. exact DispatchProofs.role_table_holds. Qed.
+Print Assumptions C04_listener_role_table.
+
+Theorem C04_dispatch_any_world : DispatchProofs.any_world_statement.
+Proof. exact DispatchProofs.any_world_holds. Qed.
+Print Assumptions C04_dispatch_any_world.
+
+(* "qualified" in the dispatch model is the function go2coq generates from model.AttackType.IsQualified *)
+Theorem C04_dispatch_qualified_is_the_source :
+  forall t, Dispatch.is_qualified t = Formulas.AttackType_IsQualified t.
+Proof. intros t; reflexivity. Qed.
+Print Assumptions C04_dispatch_qualified_is_the_source.
+
+Example C04_dispatch_nonvacuous : DispatchProofs.demo_hit_statement.
+Proof. exact DispatchProofs.demo_hit. Qed.
+Example C04_dispatch_scripted_nonvacuous : DispatchProofs.demo_scripted_statement.
+Proof. exact DispatchProofs.demo_scripted. Qed.
